@@ -17,6 +17,30 @@ import vf
 LEVEL = "model_checking"
 
 
+def manager_table(ctx, quick, which):
+    """The per-host table (BucketManager) in real time: unit-verif c13mgr, judged by C13M_Mon.
+    which: substrings of the violation texts this caller is responsible for (C13: penalties, C16: the bound)."""
+    mpath = os.path.join(ctx.scratch, "c13mgr.ndjson")
+    if ctx.replay:
+        if not open(ctx.replay).readline().startswith('{"ev":"mgr.') and '"mgr.' not in open(ctx.replay).readline():
+            return 0
+        mpath = ctx.replay
+    else:
+        ctx.run_bin("unit-verif", ["c13mgr", mpath, "6" if quick else "40"], timeout=600)
+    mev = vf.read_ndjson(mpath)
+    mon = ctx.validate("C13M_Mon", "C13M_mon.cfg", mpath, name="mon-mgr")
+    if mon["hwm"] < mon["total"]:
+        raise vf.Inconclusive("C13M_Mon stopped at line %d of %d" % (mon["hwm"], mon["total"]))
+    for v in mon["viols"]:
+        if not any(w in v["why"] for w in which):
+            continue
+        e = mev[v["l"] - 1]
+        rp = os.path.join(ctx.scratch, "viol-mgr-%s.ndjson" % e["sc"])
+        vf.write_ndjson(rp, [x for x in mev if x["sc"] == e["sc"]])
+        ctx.report("%s (scenario %s, event %s)" % (v["why"], e["sc"], {k: e[k] for k in e if k not in ("seq",)}), replay_src=rp, tag="mgr", key=v["why"])
+    return len(mev)
+
+
 def run(ctx):
     quick = ctx.tier == "quick"
     states = trans = 0
@@ -30,6 +54,10 @@ def run(ctx):
         trans += r.generated
     ctx.build_harness()
     tpath = os.path.join(ctx.scratch, "c13.ndjson")
+    if ctx.replay and '"mgr.' in open(ctx.replay).readline():
+        manager_table(ctx, quick, ("penalised host",))
+        ctx.cov.update({"states": states, "transitions": trans, "traces_validated_against_impl": 1, "samples": ["replay of a per-host table scenario"]})
+        return
     if ctx.replay:
         tpath = ctx.replay
     else:
@@ -55,12 +83,13 @@ def run(ctx):
         vf.write_ndjson(rp, [x for x in events if x["b"] == e["b"]])
         ctx.report("%s (scenario %s %s, event %s)" % (v["why"], e["b"], kind, {k: e[k] for k in ("op", "t", "tokens", "rate", "ideal", "pen", "fc", "code") if k in e}),
                    replay_src=rp, tag="scn", key="%s kind=%s" % (v["why"], kind[0]))
+    nmgr = manager_table(ctx, quick, ("penalised host", ))
     rel = [e for e in events if e["op"] == "take"]
     ctx.cov.update({
         "states": states, "transitions": trans, "exhaustive": True,
         "traces_validated_against_impl": len(kinds),
         "evaluations": len(events), "distinct_nontrivial": len({(e["b"], e["t"]) for e in rel}),
-        "rule": "events of real tokenBucket scenarios; non-trivial = distinct releases; scenario kinds: %s" % sorted({k[0] for k in kinds.values()}),
+        "rule": "events of real tokenBucket scenarios; non-trivial = distinct releases; scenario kinds: %s; per-host table events (real time): %d" % (sorted({k[0] for k in kinds.values()}), nmgr),
         "max_failure_streak": max([e["fc"] for e in events] + [0]),
         "impl_spec_accepted": not impl["drift"],
         "samples": [events[0], rel[len(rel) // 2]] + [e for e in events if e["op"] == "fail"][:1],
